@@ -6,6 +6,8 @@
 // numeric value.  Grid: every ordered pair and every triple over 12 REAL values (signed zeros, adjacent doubles, 0.1+0.2,
 // infinities as far as the REAL parser yields them, NaN), 9 INT values (64-bit ends, neighbours of 2^53), 7 TEXT values
 // (empty, prefixes, case, non-ASCII) and 4 TIMESTAMP values.
+// Also: a text literal on either side of every TIMESTAMP comparison; PERCENTILE / MIN / MAX shown by one engine on every
+// refresh against the batch value, over sequences of 3..4 lines of a 6-line pool.
 include!("verif_grid_common.rs");
 include!("verif_grid_qcommon.rs");
 use serde_json::Value as J;
@@ -86,6 +88,40 @@ fn verif_grid() {
                 else { Err(format!("{} values {:?} and {:?}: WHERE calls them {}, but GROUP BY makes {} group(s), DISTINCT keeps {} row(s) and a self-join pairs {} of 4 combinations (expected {:?})", name, a, b, if eq { "equal" } else { "different" }, groups, distinct, pairs, want)) }
             });
         } }
+    }
+    // a text literal on either side of a TIMESTAMP comparison is read as a timestamp: the two ways of writing a comparison agree
+    {
+        let def = "CREATE TABLE t(line = '^ts=(.+)$', line[1] => ts TIMESTAMP);";
+        let stamps = ["2020-01-01 00:00:00", "2020-06-15 12:30:00", "2021-01-01 00:00:00"];
+        for (i, lit) in stamps.iter().enumerate() { for (j, row) in stamps.iter().enumerate() {
+            g.case(&format!("timestamp-text-sides-{}-{}", i, j), move || {
+                let line = format!("ts={}", row);
+                let query = format!("SELECT ts < '{l}' AS a, '{l}' > ts AS b, ts > '{l}' AS c, '{l}' < ts AS d, ts = '{l}' AS e, '{l}' = ts AS f, ts <= '{l}' AS g, '{l}' >= ts AS h FROM t", l = lit);
+                match q(def, &query, &[&line]) {
+                    Outcome::Lines(l, _) => { let v: J = serde_json::from_str(&l[0]).unwrap();
+                        let want = (row < lit, row > lit, row == lit, row <= lit);
+                        if v["a"] == v["b"] && v["c"] == v["d"] && v["e"] == v["f"] && v["g"] == v["h"] && v["a"] == J::Bool(want.0) && v["c"] == J::Bool(want.1) && v["e"] == J::Bool(want.2) && v["g"] == J::Bool(want.3) { Ok(()) }
+                        else { Err(format!("row {} against the literal '{}': {} printed {}", row, lit, query, l[0])) } }
+                    other => Err(format!("{:?}", other)),
+                }
+            });
+        } }
+    }
+    // PERCENTILE ranks by the same order on every refresh: one engine fed line by line shows the batch value each time
+    {
+        let pool = ["k=a v=5", "k=a v=1", "k=a v=9", "k=a v=3", "k=b v=2", "k=a v=7"];
+        for (bi, base) in sequences(&pool, 4).into_iter().enumerate() {
+            if base.len() < 3 || (base.len() == 4 && bi % 3 != 0) { continue; }
+            let b1 = base.clone();
+            g.case(&format!("percentile-refresh-b{}", bi), move || {
+                let st = "SELECT k, PERCENTILE(v, 0.5) AS med, MIN(v) AS lo, MAX(v) AS hi FROM t GROUP BY k";
+                let shown = incremental(T, st, &b1)?;
+                for k in 1..=b1.len() { if let Some(table) = &shown[k - 1] { match q(T, st, &b1[..k]) {
+                    Outcome::Lines(batch, _) => if *table != batch { return Err(format!("{} fed line by line over {:?}: after line {} it shows {:?}, a batch run over those lines prints {:?}", st, b1, k, table, batch)); },
+                    other => return Err(format!("{:?}", other)) } } }
+                Ok(())
+            });
+        }
     }
     // numbers compare by numeric value
     for (i, (a, b, lt)) in [("2", "10", true), ("-2", "-10", false), ("9007199254740992", "9007199254740993", true)].iter().enumerate() {
